@@ -46,7 +46,8 @@ CONSTANTS Keys,          \* abstract keys: sequences of symbols (lexicographic o
           Sim,           \* TRUE: parameters are drawn from the pseudo random stream rnd (one successor per action instance)
           SeedSpace,     \* simulation: number of initial values of rnd
           EmitDepth,     \* print the history as JSON when a behaviour has this many steps (0 = never)
-          ScriptNo       \* 0: none; n in 1..NScripts: follow Scripts[n]; 99: every script (one initial state each)
+          ScriptNo       \* 0: none; n in 1..NScripts: follow Scripts[n]; 99: every script (one initial state each);
+                         \* 98: every reader-matrix script (MatrixScripts)
                          \* (directed behaviours; the expected results still come from this module)
 
 \* key universes for the cfg files (a cfg cannot spell tuples): Keys <- Keys3 etc.
@@ -54,6 +55,11 @@ Keys3 == {<<1>>, <<1, 2>>, <<2>>}
 Probes3 == {<<>>, <<1>>, <<2>>}
 Keys5 == {<<1>>, <<1, 1>>, <<1, 3>>, <<2>>, <<2, 2>>}
 Probes5 == Keys5 \cup {<<>>, <<1, 2>>, <<2, 1>>, <<3>>}       \* between keys, beyond the last key, empty
+
+\* reader matrix: every string of up to two symbols over {1,2,3} is a probe (closed under prefixes); the stored keys
+\* of the matrix trees leave probes below the first key, between keys and above the last key
+ProbesAll == {<<>>} \cup {<<a>> : a \in 1..3} \cup {<<a, b>> : a, b \in 1..3}
+KeysM == {<<1>>, <<1, 1>>, <<1, 3>>, <<2>>, <<2, 1>>, <<2, 2>>, <<2, 3>>, <<3>>, <<3, 2>>, <<3, 3>>}
 
 VARIABLES map, ts,
           past,      \* ghost: every distinct state [map, ts] the tree went through (strictly increasing ts)
@@ -216,13 +222,14 @@ ExpFor(tg, F(_)) == LET C == Cands(tg) IN [c \in 1..Len(C) |-> [ts |-> past[C[c]
 StJson(m) == [i \in 1..Len(KeySeq) |-> [x \in 1..Len(m[KeySeq[i]]) |-> <<m[KeySeq[i]][x].v, m[KeySeq[i]][x].t>>]]
 
 NScripts == 5
+NMatrix == 3
 Init ==
   /\ map = EmptyMap /\ ts = 0 /\ past = <<[map |-> EmptyMap, ts |-> 0]>>
   /\ snaps = [s \in 1..MaxSnaps |-> NoSnap] /\ readers = [r \in 1..MaxReaders |-> NoReader]
   /\ base = [map |-> EmptyMap, ts |-> 0] /\ liveId = 0 /\ pend = {}
   /\ lastFl = 0 /\ dirty = TRUE      \* a fresh tree starts with a mutated empty leaf and no stored root
   /\ nextv = 1 /\ nfail = 0 /\ hist = <<>>
-  /\ rnd \in (IF Sim THEN 1..SeedSpace ELSE IF ScriptNo = 99 THEN 1..NScripts ELSE {1})
+  /\ rnd \in (IF Sim THEN 1..SeedSpace ELSE IF ScriptNo = 99 THEN 1..NScripts ELSE IF ScriptNo = 98 THEN 1..NMatrix ELSE {1})
 
 CanStep == Len(hist) < MaxOps
 \* every history entry carries the abstract state after the step
@@ -356,10 +363,11 @@ SimSpec(o) ==
   IF Chance(o, 2, 6)
   THEN [kind |-> "pages", off |-> R(o + 4) % 3, desc |-> R(o + 5) % 2 = 0, lim |-> 1 + (R(o + 6) % 3),
         key |-> IF KeysOf(map) # {} /\ ~Chance(o, 7, 4) THEN At(SortKeys(KeysOf(map)), R(o + 3)) ELSE At(KeySeq, R(o + 3))]
-  ELSE [kind |-> IF Chance(o, 3, 3) THEN "hist" ELSE "plain",
-        seek |-> IF Chance(o, 4, 3) THEN <<>> ELSE At(ProbeSeq, R(o + 5)),
-        end |-> IF Chance(o, 6, 2) THEN <<>> ELSE At(ProbeSeq, R(o + 7)),
-        prefix |-> IF Chance(o, 8, 2) THEN <<>> ELSE At(ProbeSeq, R(o + 9)),
+  ELSE LET pfx == IF Chance(o, 8, 2) THEN <<>> ELSE At(ProbeSeq, R(o + 9)) IN        \* one in four bounds equals the prefix
+       [kind |-> IF Chance(o, 3, 3) THEN "hist" ELSE "plain",
+        seek |-> IF Chance(o, 4, 3) THEN <<>> ELSE IF Chance(o, 15, 4) THEN pfx ELSE At(ProbeSeq, R(o + 5)),
+        end |-> IF Chance(o, 6, 2) THEN <<>> ELSE IF Chance(o, 16, 4) THEN pfx ELSE At(ProbeSeq, R(o + 7)),
+        prefix |-> pfx,
         iseek |-> R(o + 10) % 2 = 0, iend |-> R(o + 11) % 2 = 0, desc |-> R(o + 12) % 2 = 0,
         off |-> IF Chance(o, 13, 3) THEN 1 + (R(o + 14) % 2) ELSE 0]
 
@@ -544,8 +552,70 @@ Scripts == <<
     [op |-> "reopen"], [op |-> "history", tg |-> 0, k |-> <<1>>, off |-> 0, desc |-> TRUE, lim |-> 4], [op |-> "bulk", kv |-> <<B(<<2>>, 0)>>],
     [op |-> "reopen"], [op |-> "get", tg |-> 0, k |-> <<2>>]>>
 >>
-ASSUME NScripts = Len(Scripts)
-Script == IF ScriptNo = 0 THEN <<>> ELSE IF ScriptNo # 99 THEN Scripts[ScriptNo] ELSE Scripts[rnd]   \* rnd is constant unless Sim
+\* Reader matrix scripts: build a small tree (some versions flushed to the history log, some not), take a snapshot
+\* of the current state and enumerate EVERY reader specification over the probe universe on it.
+MatrixScripts == <<
+  \* stored: <<2>> (a stored key that is the prefix of other stored keys), <<2,1>>, <<2,3>>, <<3>>, <<3,2>>;
+  \* absent: everything below (<<1>>..), <<2,2>> and <<3,1>> in between, <<3,3>> above
+  <<[op |-> "bulk", kv |-> <<B(<<2>>, 0), B(<<2, 1>>, 0), B(<<3>>, 0)>>], [op |-> "bulk", kv |-> <<B(<<2>>, 0), B(<<2, 3>>, 0)>>],
+    [op |-> "flush", cleanup |-> 0, synced |-> TRUE], [op |-> "bulk", kv |-> <<B(<<2>>, 0), B(<<3, 2>>, 0), B(<<3>>, 0)>>],
+    [op |-> "snap", must |-> 3, renew |-> FALSE], [op |-> "matrix"]>>,
+  \* stored: the smallest and the greatest key of the universe, <<1>> with its extensions, <<2,2>> without its prefix <<2>>
+  <<[op |-> "bulk", kv |-> <<B(<<1>>, 0), B(<<1, 1>>, 0), B(<<3, 3>>, 0)>>], [op |-> "bulk", kv |-> <<B(<<1, 3>>, 0), B(<<2, 2>>, 0), B(<<1, 3>>, 0)>>],
+    [op |-> "bulk", kv |-> <<B(<<1, 3>>, 0)>>], [op |-> "snap", must |-> 3, renew |-> TRUE], [op |-> "matrix"]>>,
+  \* a single stored key, and its extension
+  <<[op |-> "bulk", kv |-> <<B(<<2>>, 0)>>], [op |-> "bulk", kv |-> <<B(<<2>>, 0), B(<<2, 2>>, 0)>>],
+    [op |-> "snap", must |-> 2, renew |-> FALSE], [op |-> "matrix"]>>
+>>
+ASSUME NScripts = Len(Scripts) /\ NMatrix = Len(MatrixScripts)
+Script == IF ScriptNo = 0 THEN <<>> ELSE IF ScriptNo = 99 THEN Scripts[rnd]           \* rnd is constant unless Sim
+          ELSE IF ScriptNo = 98 THEN MatrixScripts[rnd] ELSE Scripts[ScriptNo]
+
+\* The matrix: (prefix, seek, end) over ALL probes x inclusive seek x inclusive end x order for plain readers without
+\* offset; over the reduced probes additionally IncludeHistory and offsets 1, 2.  A case is the tuple
+\* <<prefix, seek, end (indexes into ProbeSeq), iseek, iend, desc, off, hist, out>>, out = sequence of
+\* <<key (index into KeySeq), version (chronological index = hc)>> the reader must return before "no more entries".
+RedProbes == {<<>>, <<1>>, <<2>>, <<2, 1>>, <<2, 2>>, <<3, 3>>} \cap Probes
+PIdx(S) == {i \in 1..Len(ProbeSeq) : ProbeSeq[i] \in S}
+KIdx(k) == CHOOSE i \in 1..Len(KeySeq) : KeySeq[i] = k
+MatrixOut(m, sp) ==
+  LET K == RangeKeys(m, sp) IN
+  IF sp.kind = "plain" THEN [i \in 1..Len(K) |-> <<KIdx(K[i]), Len(m[K[i]])>>]
+  ELSE LET F == Flat(m, K, 1, sp.desc) IN [i \in 1..Len(F) |-> <<KIdx(F[i].k), F[i].hc>>]
+MatrixCase(m, p, se, e, is, ie, d, off, h) ==
+  <<p, se, e, is, ie, d, off, h,
+    MatrixOut(m, [kind |-> IF h THEN "hist" ELSE "plain", seek |-> ProbeSeq[se], end |-> ProbeSeq[e], prefix |-> ProbeSeq[p],
+                  iseek |-> is, iend |-> ie, desc |-> d, off |-> off])>>
+ReaderCases(m) ==
+  {MatrixCase(m, p, se, e, is, ie, d, 0, FALSE) : p \in PIdx(Probes), se \in PIdx(Probes), e \in PIdx(Probes), is \in BOOLEAN, ie \in BOOLEAN, d \in BOOLEAN}
+  \cup {MatrixCase(m, p, se, e, is, ie, d, off, h) : p \in PIdx(RedProbes), se \in PIdx(RedProbes), e \in PIdx(RedProbes),
+                                                     is \in BOOLEAN, ie \in BOOLEAN, d \in BOOLEAN, off \in 0..2, h \in BOOLEAN}
+\* HistoryReader: <<key (index into ProbeSeq; absent keys too), offset, desc, limit, pages, end>>: pages = the version indexes
+\* of every page, end = why the reader stops
+RECURSIVE Pages(_, _, _, _, _)
+Pages(m, k, off, d, lim) ==
+  LET res == IF k \in Keys THEN HistoryRes(m, k, off, d, lim) ELSE NotFound("nokey")
+  IN IF res.r # "ok" THEN <<<<>>, res.r>>
+     ELSE LET n == Len(m[k]) len == Len(res.tvs)
+              page == [x \in 1..len |-> IF d THEN n - off - x + 1 ELSE off + x]
+              rest == Pages(m, k, off + len, d, lim)
+          IN <<<<page>> \o rest[1], rest[2]>>
+PageCases(m) == {LET pg == Pages(m, ProbeSeq[k], off, d, lim) IN <<k, off, d, lim, pg[1], pg[2]>> :
+                   k \in {i \in PIdx(Probes) : ProbeSeq[i] # <<>>}, off \in 0..4, d \in BOOLEAN, lim \in 1..3}
+
+\* model fact the replay relies on: on a plain reader a sequence of ReadBetween(0, 0) calls returns what Read returns
+\* (window without bounds = latest version, hc = number of versions); checked here on the reduced probe set
+BetweenSeq(m, K, n) == PlainRun(m, K, [x \in 1..n |-> [op |-> "between", i |-> 0, f |-> 0]], 1, 0)
+BetweenAgreesOn(m, K) == \A n \in 1..(Len(K) + 1) : BetweenSeq(m, K, n) = (IF n <= Len(K) THEN GetRes(m, K[n]) ELSE NoMore)
+BetweenAgrees(m) ==
+  \A c \in ReaderCases(m) : c[7] # 0 \/ c[8] \/ BetweenAgreesOn(m, [i \in 1..Len(c[9]) |-> KeySeq[c[9][i][1]]])
+ReaderMatrix ==
+  /\ ScriptNo # 0 /\ Len(hist) < Len(Script) /\ Script[Len(hist) + 1].op = "matrix"
+  \* ("= TRUE": evaluated as an expression; as an action conjunct TLC would unfold the quantifiers recursively)
+  /\ (\A s \in OpenSnaps : BetweenAgrees(snaps[s].map)) = TRUE
+  /\ \E s \in OpenSnaps :
+       LogSame([op |-> "matrix", s |-> s, probes |-> ProbeSeq, cases |-> ReaderCases(snaps[s].map), pages |-> PageCases(snaps[s].map)])
+  /\ UNCHANGED <<map, ts, past, snaps, readers, base, liveId, pend, lastFl, dirty, nextv, nfail>>
 MatchStep(e, d) ==
   /\ e.op = d.op
   /\ CASE d.op = "bulk" -> /\ Len(e.kvts) = Len(d.kv)
@@ -558,7 +628,7 @@ MatchStep(e, d) ==
        [] d.op = "between" -> e.tg = d.tg /\ e.k = d.k /\ e.i = d.i /\ e.f = d.f
        [] d.op = "history" -> e.tg = d.tg /\ e.k = d.k /\ e.off = d.off /\ e.desc = d.desc /\ e.lim = d.lim
        [] OTHER -> TRUE
-ScriptNext == /\ Len(hist) < Len(Script) /\ McNext /\ MatchStep(hist'[Len(hist')], Script[Len(hist')])
+ScriptNext == /\ Len(hist) < Len(Script) /\ (McNext \/ ReaderMatrix) /\ MatchStep(hist'[Len(hist')], Script[Len(hist')])
 Next == IF ScriptNo # 0 THEN ScriptNext ELSE IF Sim THEN SimNext ELSE McNext
 
 Spec == Init /\ [][Next]_vars
